@@ -246,6 +246,7 @@ func Run(in, out, probe string) error {
 	}
 	defer w.Close()
 	adaptation.SetPluginRegistrationTimeout(regTimeout)
+	adaptation.SetPluginRequestTimeout(600 * time.Millisecond)
 	sc := bufio.NewScanner(f)
 	sc.Buffer(make([]byte, 1<<20), 1<<24)
 	n := 0
